@@ -259,7 +259,7 @@ def run(chk):
     chk.function(FILE, "DataStoreABC._check_writable", "P")
     only = getattr(chk, "only", None)
     if not only or "proof" in only:
-        chk.guard(run_drop)
+        chk.guard(run_drop, fallback=[_replay_drop])
         chk.guard(run_writable)
         chk.discharge()
     chk.assume("str.replace(old, new) returns the string unchanged when old does not occur (identifiers with an embedded "
